@@ -814,7 +814,10 @@ func (c *ctx) famGetMany() {
 		if absent != nil {
 			sels = append(sels, sel{[]int{-1}})
 		}
-		for _, dirty := range []bool{true, false} {
+		for _, mode := range []int{0, 1, 2} {
+			// 0: ClearDirtyValues, 1: not, 2: not, and the path nodes still hold the result of an earlier lookup (the
+			// caller reuses its slice): a present child overwrites whatever the node held
+			dirty := mode == 0
 			for _, se := range sels {
 				pns := make([]generic.PathNode, len(se.idx))
 				desc := ""
@@ -856,6 +859,15 @@ func (c *ctx) famGetMany() {
 					trig = strings.TrimSuffix(feat, ",")
 				}
 				where := pbref.PathString(p) + " -> " + desc
+				if mode == 2 {
+					if !allPresent {
+						continue
+					}
+					for k := range pns {
+						pns[k].Node = c.rv.Node
+					}
+					where += " (path nodes reused from an earlier lookup)"
+				}
 				var err error
 				opts := &generic.Options{ClearDirtyValues: dirty}
 				if !c.call("GetMany", trig, where, func() { err = gv.GetMany(pns, opts) }) {
